@@ -1826,16 +1826,18 @@ func (c *Core) unsealInternal(ctx context.Context, rootKey []byte) error {
 		return err
 	}
 
+	// The barrier holds the keyring from here on; a failure before the core
+	// is marked unsealed must not leave it behind.
 	if err := c.checkSelfInit(ctx); err != nil {
-		return err
+		return errors.Join(err, c.barrier.Seal())
 	}
 
 	if err := c.startClusterListener(ctx); err != nil {
-		return err
+		return errors.Join(err, c.barrier.Seal())
 	}
 
 	if err := c.startRaftBackend(ctx); err != nil {
-		return err
+		return errors.Join(err, c.barrier.Seal())
 	}
 
 	// Do post-unseal setup if HA is not enabled
